@@ -43,7 +43,7 @@ def generate(rng, prop, tier):
         if kind == 'raw':
             km['flat'] = True
         if kind == 'pickle' and arg in ('dill', 'pickle') and rng.chance(0.5):
-            km['proto'] = rng.choice([2, 3])
+            km['proto'] = rng.choice([0, 1, 2, 3])
         if not km['flat']:
             km['sentinel'] = False
         if fn in M.VARIADIC and km['flat']:
